@@ -1535,6 +1535,11 @@ class MacroFunction(Macro):
         pre-expanded) arguments passed to this.
         """
         # Combine variadic arguments into one, separated by commas
+        va_args_present = len(self.args) - 1 < len(input_args) and not (
+            len(self.args) == 1
+            and len(input_args) == 1
+            and len(input_args[0][0]) == 0
+        )
         if self.variadic:
             comma = Punctuator("EXPANSION", -1, False, ",")
             va_args_raw = []
@@ -1579,12 +1584,27 @@ class MacroFunction(Macro):
                             last = [last]
                     idx += 1
                     nexttok = self.replacement[idx]
+                    comma_va_args = False
                     try:
                         argidx = self.args.index(nexttok.token)
                         nexttok = input_args[argidx][0]  # Unexpanded arg
+                        comma_va_args = (
+                            self.variadic
+                            and argidx == len(self.args) - 1
+                            and len(last) > 0
+                            and last[-1].token == ","
+                        )
                     except ValueError:
                         nexttok = [nexttok]
-                    if len(last) > 0 and len(nexttok) == 0:
+                    if comma_va_args:
+                        # ", ## __VA_ARGS__" pastes nothing: the variable
+                        # arguments follow the comma, and the comma goes
+                        # away when there are no variable arguments at all.
+                        if va_args_present:
+                            res_tokens.extend(last + nexttok)
+                        else:
+                            res_tokens.extend(last[:-1])
+                    elif len(last) > 0 and len(nexttok) == 0:
                         # Pasting with an empty argument yields the left side.
                         res_tokens.extend(last)
                     elif len(last) > 0:
